@@ -221,10 +221,20 @@ def discharge(ob: Oblig, timeout_ms=10000, seed=0, use_cvc5=True):
     adds the quantified facts (sequence concatenation, comprehension definitions) when stage 1 found a
     candidate counter-model."""
     t0 = time.time()
+    from .engine import _hard
     qf = [c for c in ob.pc if not z3.is_quantifier(c)]
     quant = len(qf) != len(ob.pc)
+    easy = [c for c in qf if not _hard(c)]
+    out = {"backend": "z3", "stage": 0}
+    if len(easy) != len(qf) and not _hard(ob.goal):
+        # stage 0: without the string/regex hypotheses (fewer hypotheses: still a proof)
+        s, r = _check(easy, ob.goal, min(timeout_ms, 3000), seed)
+        if r == z3.unsat:
+            out["time_s"] = round(time.time() - t0, 4)
+            out["verdict"] = "unsat"
+            return out
     s, r = _check(qf, ob.goal, timeout_ms, seed)
-    out = {"backend": "z3", "stage": 1}
+    out["stage"] = 1
     if r == z3.sat and quant:
         cand = extract_model(s.model(), ob)
         s, r = _check(ob.pc, ob.goal, timeout_ms, seed)
